@@ -6,8 +6,8 @@ model can reach from an empty manager (with any shard directories already on dis
 of DoWithShard calls, DeleteCollectionShards calls, shards and collections arriving at any time, the
 idle timer of every loaded shard firing at any moment, LOADS THAT FAIL (the environment may at any
 time make the database file of a shard directory unopenable — `Act.corrupt` — or put a non-directory
-at the path of a shard directory — `Act.block`; `shard.NewShard` / `os.MkdirAll` then return an
-error inside loadShard), and every interleaving at the granularity of single lock / map / channel /
+at the path of a shard directory — `Act.block` —, or make an unopenable file openable again —
+`Act.repair`; `shard.NewShard` / `os.MkdirAll` return an error inside loadShard while `bad` / `blocked`), and every interleaving at the granularity of single lock / map / channel /
 file-system operations.
 -/
 import SemaModel.C12.Helpers
@@ -343,6 +343,14 @@ example :
     let s := (runSched .repaired (St.init []) a).1
     (runSched .repaired (St.init []) a).2 = a.length ∧ s.thr[0]? = some (.done .err) ∧ s.thr[1]? = some (.done .ok) ∧
     s.lock = none ∧ s.dirs = [(0,1)] := by decide
+
+/-- (e) a transient failure: the request fails while the file is garbage; once the file is repaired the
+next request on the same shard loads it and runs its callback (nothing of the failure is remembered) -/
+example :
+    let a : List Act := [.corrupt (0,0), .newReq (0,0)] ++ List.replicate 5 (.run 0) ++ [.repair (0,0), .newReq (0,0)] ++ List.replicate 11 (.run 1)
+    let s := (runSched .repaired (St.init []) a).1
+    (runSched .repaired (St.init []) a).2 = a.length ∧ s.thr[0]? = some (.done .err) ∧ s.thr[1]? = some (.done .ok) ∧
+    s.store (0,0) = some 0 ∧ s.opens (0,0) = 1 ∧ s.lock = none := by decide
 
 /-! ## Reload -/
 
